@@ -45,6 +45,22 @@ var blockerTokens = []string{"MACRO-BODY", "HANDLER-BIND", "IGNORE-ERRORS", "LOA
 var nontailTokens = []string{"NT-arg", "NT-and", "NT-progn-nonlast", "NT-let-value", "NT-if-test", "NT-or-nonlast",
 	"XP-macro-identity", "XP-macro-template"}
 
+// OP-* put the operand in the OPERATOR position of a call that is itself in
+// tail position: the operand (a recursive call, or a terminal shape ending in
+// one) returns a function which is then applied.  The operator expression is
+// not a tail expression, so the call in it must not be collapsed.  Programs
+// with an OP-* token make every loop result a function (see Source).
+var headTokens = []string{"OP-head-0", "OP-head-1", "OP-head-let-bound", "OP-head-labels-bound"}
+
+func hasHeadToken(shape []string) bool {
+	for _, t := range shape {
+		if strings.HasPrefix(t, "OP-") {
+			return true
+		}
+	}
+	return false
+}
+
 var argStyles = []string{"acc", "rest", "key"}
 
 var errModes = []string{"none", "base", "first"}
@@ -274,6 +290,15 @@ func wrap(c Case, tok string, level, k int, v vars, inner form) form {
 		return form{head: "if", args: []string{E, fmt.Sprintf("(+ %s 1)", v.n), fmt.Sprintf("(+ %s 2)", v.n)}, tail: 0}
 	case "NT-or-nonlast":
 		return form{head: "or", args: []string{E, ":dead"}, tail: 0}
+	case "OP-head-0":
+		// ((...E...)) : a zero-argument call whose head is a compound form
+		return form{head: E, tail: -1}
+	case "OP-head-1":
+		return form{head: E, args: []string{v.n}, tail: -1}
+	case "OP-head-let-bound":
+		return form{head: "let", args: []string{fmt.Sprintf("([g%d (lambda () %s)])", L, E), fmt.Sprintf("((g%d))", L)}, tail: 1}
+	case "OP-head-labels-bound":
+		return form{head: "labels", args: []string{fmt.Sprintf("([g%d () %s])", L, E), fmt.Sprintf("((g%d))", L)}, tail: 1}
 	case "XP-macro-identity":
 		return form{head: "mx", args: []string{E}, tail: 0}
 	case "XP-macro-template":
@@ -338,6 +363,13 @@ func Source(c Case) string {
 	}
 	acc := accExpr(c.Args, loc)
 	base := "(progn (c02-probe) (debug-print 'base " + acc + ") " + acc + ")"
+	fnValued := hasHeadToken(c.Shape)
+	if fnValued {
+		// every loop result is a function that returns a function of the
+		// same kind when applied to < 2 operands, and its payload otherwise
+		b.WriteString("(defun c02-fn (v) (lambda (&rest a) (if (> (length a) 1) v (c02-fn v))))\n")
+		base = "(progn (c02-probe) (debug-print 'base " + acc + ") (c02-fn " + acc + "))"
+	}
 	if c.Err == "base" {
 		base = "(progn (c02-probe) (debug-print 'base " + acc + ") (error 'c02-cond \"base\" " + acc + "))"
 	}
@@ -384,6 +416,9 @@ func Source(c Case) string {
 	}
 	for _, d := range defs {
 		b.WriteString(d)
+	}
+	if fnValued {
+		top = "(" + top + " 0 0)"
 	}
 	b.WriteString(top + "\n")
 	return b.String()
